@@ -69,6 +69,10 @@ func checkC08(tier string) int {
 			}
 		}
 	}
+	// the last consumers of an ephemeral channel leave while a new one arrives
+	for _, st := range []string{"inflight", "queued", "none"} {
+		specs = append(specs, nsqd.MicroSpec{State: st, Eph: true, MemQ: 10, Ops: []string{"disc1", "disc2", "sub3"}})
+	}
 	triples := [][]string{{"del_ch", "pub", "sub3"}, {"empty_ch", "fin1", "scan"}, {"disc1", "sub3", "pub"}, {"del_topic", "pub", "sub3"}, {"empty_ch", "req1", "rdy2"}}
 	for _, tr := range triples {
 		for _, eph := range ephs {
